@@ -505,6 +505,7 @@ fn compile_to_ir_using_alpha(
 		compiler.for_wasm()?;
 	}
 
+	let mut written_paths: Vec<std::path::PathBuf> = Vec::new();
 	for (filepath, declarations) in modules
 	{
 		let filename = filepath.to_string_lossy().to_string();
@@ -561,6 +562,18 @@ fn compile_to_ir_using_alpha(
 				path.set_extension("pn.ll");
 				path
 			};
+			// Two source files (`x.pn` and `x.txt`, say) must not silently
+			// overwrite each other's IR.
+			if written_paths.contains(&outputpath)
+			{
+				return Err(anyhow!(
+					"cannot write the IR of '{}': '{}' already holds the IR of \
+					 another source file",
+					filepath.to_string_lossy(),
+					outputpath.to_string_lossy()
+				));
+			}
+			written_paths.push(outputpath.clone());
 			let dirname = outputpath.parent().context("invalid output dir")?;
 			std::fs::create_dir_all(dirname)?;
 			stdout.io_header("Writing to", &outputpath)?;
